@@ -4,6 +4,7 @@ import FlVerif.Op.PyExtCascade
 import FlVerif.Op.PyExtEngine
 import FlVerif.Op.RuleLoad
 import FlVerif.Op.Session
+import FlVerif.Op.InputValues
 
 /-! # Externals of the translated loading / unloading functions of `rule.py` and of `Engine.restart`
 
@@ -46,5 +47,15 @@ def consLoad (e : EngineInfo) (r : RuleObj) : Except (Py.Err × RuleObj) RuleObj
   match consequentLoad e (joinWords r.parsed.cons) with
   | .ok cs => .ok { r with cons := cs }
   | .error k => .error (Py.errOfKind k, { r with cons := [] })
+
+/-- a partial NumPy operation (`a.item()` of an array with more than one element is a `ValueError`) -/
+def orValueError {β : Type} : Option β → Py.M β
+  | some x => .ok x
+  | none => .error .value
+
+/-- `a.shape[1]` of an array with fewer than two dimensions is an `IndexError` -/
+def orIndexError {β : Type} : Option β → Py.M β
+  | some x => .ok x
+  | none => .error .lookup
 
 end Py.Sess
